@@ -140,7 +140,8 @@ F6Pats == UNION {F6Atoms(c) : c \in F6Chars} \cup F6Fixed
 F6Flags == { Flags(TRUE, FALSE, FALSE, FALSE, FALSE), Flags(TRUE, FALSE, FALSE, TRUE, FALSE),
              Flags(TRUE, FALSE, FALSE, FALSE, TRUE), NoFlags }
 F6 == UNION {With(F6Pats, fl) : fl \in F6Flags}
-F6Hay == [alpha |-> F6Chars \cup {cSP}, maxlen |-> 2]
+\* (U+0000 is there because unused slots of a small character set must not match anything)
+F6Hay == [alpha |-> F6Chars \cup {cSP, 0}, maxlen |-> 2]
 
 (***************************************************************************)
 (* F7: literal runs (byte-sequence lowering, chunking at 16 bytes, both    *)
@@ -233,7 +234,7 @@ F13Pats == { Cat(<<Grp(Dot), BRef(1)>>), Cat(<<Look(Cat(<<Grp(Dot), BRef(1)>>), 
              Cat(<<Opt(Chr(cHiSurr)), Dot>>), Cls(FALSE, <<IR(64, 96)>>), Cat(<<Grp(Cls(FALSE, <<IR(64, 96)>>)), Star(BRef(1))>>) }
 F13Flags == { NoFlags, Flags(TRUE, FALSE, FALSE, FALSE, FALSE), Flags(TRUE, FALSE, FALSE, TRUE, FALSE), UFlags }
 F13 == UNION {With(F13Pats, fl) : fl \in F13Flags}
-F13Hay == [alpha |-> {ca, 65, 95, 64, 96, 91, 123, c1, 17, cSP, cs, cK}, maxlen |-> 2]
+F13Hay == [alpha |-> {ca, 65, 95, 64, 96, 91, 123, c1, 17, cSP, cs, cK, 0}, maxlen |-> 2]
 
 (***************************************************************************)
 (* F10: named and duplicate-named groups                                   *)
@@ -318,6 +319,22 @@ FC2 == {[ast |-> n, fl |-> fl, sp |-> 0] : n \in FC2Pats,
                   n \in {VCls(FALSE, x) : x \in FC2E1}}
 
 (***************************************************************************)
+(* F11: sub-patterns that can never match (empty class, [^\s\S]) next to   *)
+(* groups held in every kind of container: whatever the optimizer prunes,  *)
+(* every group of the pattern keeps its capture slot and its name.         *)
+(***************************************************************************)
+F11Fail == { Cls(FALSE, <<>>), Cls(TRUE, <<IE("s"), IE("S")>>) }
+F11Groups == { Grp(A), NGrp(nA, A) }
+F11Holders(g) == { g, Look(g, FALSE, FALSE), Look(g, FALSE, TRUE), Look(g, TRUE, FALSE), Look(g, TRUE, TRUE), Opt(g),
+                   Rep(g, 0, 0, TRUE), Star(g), Ncg(Cat(<<g, B>>)) }
+F11Tail == { Empty, Grp(Chr(cc)), NGrp(nB, Chr(cc)) }
+F11Pats == UNION { { Cat(<<x, Ncg(Alt(<<Cat(<<f, h>>), B>>)), y>>), Cat(<<x, Ncg(Alt(<<B, Cat(<<h, f>>)>>)), y>>),
+                     Cat(<<Opt(Ncg(Cat(<<f, h>>))), x, y>>), Alt(<<Cat(<<f, h, x>>), y>>), Cat(<<Rep(Ncg(Cat(<<h, f>>)), 0, 2, FALSE), y>>) }
+                   : f \in F11Fail, h \in UNION {F11Holders(g) : g \in F11Groups}, x \in {Empty, Grp(B)}, y \in F11Tail }
+F11 == With(F11Pats, NoFlags)
+F11Hay == [alpha |-> {ca, cb, cc}, maxlen |-> 3]
+
+(***************************************************************************)
 (* F14: what distinguishes the UTF-16 / UCS-2 decoders: supplementary      *)
 (* characters consumed and given back by loops in both directions,         *)
 (* captured, back-referenced (also case-insensitively), next to \b, in     *)
@@ -376,6 +393,7 @@ FamilyCases(name) ==
     [] name = "F1b" -> AttachHays(F1b, F1bHay)
     [] name = "F13" -> AttachHays(F13, F13Hay)
     [] name = "F20" -> AttachHays(F20, F20Hay)
+    [] name = "F11" -> AttachHays(F11, F11Hay)
     [] name = "F14" -> AttachHays(F14, F14Hay)
     [] name = "F14L" -> AttachHays(F14L, F14Hay)
     [] name = "FC1" -> AttachHaysSp(FC1, FCHay)
